@@ -1,35 +1,35 @@
 import json, os, shutil, glob
-W='v'
+W='w'
 rows = {
- 'C01': ("shared clock printer for JSON TIME and DATETIME takes the DATETIME hour mask (5 bits)",
-         "a JSON document holding an opaque TIME scalar of 32 hours or more",
-         "C01: value:type245 - **missed at first** (the JSON generator had no opaque TIME scalars; it now emits them, signed, up to 838 hours, with microseconds)"),
- 'C02': ("autocommitted rows events are committed only when their flags carry STMT_END_F",
-         "a row change outside BEGIN..COMMIT whose rows-event flags have bit 0 clear",
-         "C02: grouping - **missed at first** (flags words other than 1 were only written inside transactions; one autocommitted rows event in six now carries a random flags word)"),
- 'C03': ("QUERY events with a non-zero error code are skipped before their category is looked at",
-         "a stand-alone statement logged with an error code",
-         "C03: content:count, end-label, resume-suffix, crash-restart-exactly-once"),
- 'C04': ("BEGIN / COMMIT recognised by bytes.HasSuffix on the event buffer",
-         "a DDL statement whose text ends in the bytes BEGIN or COMMIT",
+ 'C01': ("JSON nesting-depth guard one level too strict (document starts at depth 1, entries refused at depth >= 100)",
+         "a JSON value nested exactly 100 containers deep whose innermost container holds a value stored by offset",
+         "C01: count, stream-result - **missed at first** (generated documents were at most four levels deep; one JSON value in forty is now a chain of 98..100 containers, or any depth between 5 and 100)"),
+ 'C02': ("the position returned by the parser is stored only if !pos.IsZero() (true for an empty file name)",
+         "a dump started with an empty file name, an accepted transaction, another Stream call",
+         "C02: grouping (a second delivery of an accepted transaction has no commit point left)"),
+ 'C03': ("a BEGIN that arrives while events of an unfinished transaction are buffered commits them instead of dropping them",
+         "a binlog file that ends inside a transaction group (master crash), the next file opening with BEGIN",
+         "C03: resume-suffix, crash-restart-exactly-once:content / reordered"),
+ 'C04': ("XA START / XA BEGIN classified as BEGIN, XA COMMIT as COMMIT, XA ROLLBACK as ROLLBACK",
+         "a two-phase XA group (XA START .. XA END, XA PREPARE) followed by a BEGIN",
          "C04: lost, reordered"),
- 'C05': ("reader context detached from the caller's + a non-blocking receive in front of the parser's select: the cancellation is only looked at when no event is ready",
-         "a cancellation while the master is ahead of the parser (a backlog in the socket buffer) and a parser slower than the reader",
-         "C05: cancel-ignored - **missed at first**: new rule (more than 40 handler calls after the cancellation fired; the unchanged code leaves with probability 1/2 or more per event) and a backlog family (one fault case in sixteen: 100..150 small transactions, whole stream buffered at once, early cancel, every parser log call a scheduling point so that the reader always has the next event parked)"),
- 'C06': ("the skip of the dump's opening ROTATE moved in front of the validity gate",
-         "a malformed first event whose type byte says ROTATE",
+ 'C05': ("new reader exit (context already done after a successful read) posts its error without closing the error channel",
+         "a cancellation while the reader waits for the network and the handler is busy, one more packet, two Error() calls",
+         "C05: error-blocks"),
+ 'C06': ("table-lookup failures for tables of the server schemas (mysql, sys, information_schema, performance_schema) are logged and their rows skipped",
+         "a table map in one of those schemas and a failing mapper",
          "C06: stream-nil-on-failure"),
- 'C07': ("SetBinlogPosition writes a start slot that the resume slot shadows once an attempt has run",
-         "SetBinlogPosition between two Stream calls of one Streamer",
-         "C07: offset"),
- 'C08': ("rows-event buffers recycled when no present column decodes by reference, the column masks being uint64",
-         "a table of more than 64 columns whose by-reference columns all sit behind the 64th, a retained value, a following packet that fits the buffer",
-         "C08: later-delivery-corrupted, scribble-propagated - **missed at first** (C08 had no wide tables; one table in four now has 66..600 columns, half of them with numbers and dates in front and the by-reference columns behind the 64th)"),
- 'C15': ("a table map with a column type the parser has no decoder for is skipped instead of ending the stream",
-         "such a table map for a table id that is already cached, then rows for it",
-         "C15: mismatch-accepted - **missed at first** (the re-announcement poison unit now also comes with an unchanged shape and one column announced as type 20 / 242 / 243 / 244; the rows parse under the previous map)"),
- 'C17': ("on the error path the parser's position is only stored if !pos.IsZero(), which is also true for an empty file name",
-         "a dump started with an empty file name, accepted transactions, then a malformed packet",
+ 'C07': ("Stream first returns the uncollected error of the previous attempt, before dialling",
+         "an attempt whose reader ended with an error, no Error() call, another Stream call",
+         "C07: dump-count - **missed at first** (new clause of the rule: a Stream call that nothing disturbed and that comes back without opening a connection)"),
+ 'C08': ("MarshalJSON prints BIT columns with strconv.AppendUint(b[:0], ...) on the delivered slice",
+         "a BIT value and a consumer that encodes the delivered transaction with json.Marshal",
+         "C08: mutated-after-delivery - **missed at first** (one C08 run in five now has a consumer that calls json.Marshal on every delivery; the transaction is compared with its delivery-time snapshot right after)"),
+ 'C15': ("the same-table test of the table-id cache compares the new table map with the name the mapper answered under",
+         "a mapper that answers under a canonical name, and the cached id taken over by the table that bears that name",
+         "C15: attribution, mapper-call, name-by-ordinal - **missed at first** (one C15 history in five now has a mapper that answers half of its tables under a name of its own - delivered events carry that name - and id takeovers by the table literally named so)"),
+ 'C17': ("the resume position is stored only if it is not 'older' than the start position, file names compared as strings",
+         "a rotation from bin.999999 to bin.1000000 (or any newer file whose name sorts lower), then a malformed packet",
          "C17: resume-coordinate"),
 }
 for p,(chg,needs,caught) in rows.items():
